@@ -16,12 +16,13 @@ def case_words(case):
     return ws
 
 
-def coq_case(case, res, with_last=True, with_mem=True):
+def coq_case(case, res, with_last=True, with_mem=True, fuel=None):
     ww = case['w'].bit_length() - 1
     segs = [(s, l) for s, l, _ in case['segs']]
     inp = list(bytes.fromhex(case.get('input', '')))
     timed_out = res.get('cause') == 6
-    fuel = WATCHDOG_FUEL if timed_out else res['ops'] + 2
+    if fuel is None:
+        fuel = WATCHDOG_FUEL if timed_out else res['ops'] + 2
     cause = res['cause']
     fault = res.get('fault') or 0
     last = 'None'
